@@ -54,7 +54,7 @@ func init() {
 						}
 						if c.Server.TLSClientAuth == "" && r.Bool() {
 							c.Server.TLSClientAuth = r.Pick("request", "require-any")
-							c.Conns[0].TLS.Cert = true
+							c.Conns[c11Target(c)].TLS.Cert = true
 						}
 						return c
 					}
